@@ -94,7 +94,7 @@ class QueryHandler:
     @staticmethod
     def _tokenize(expression_string):
         """Tokenize the expression string into a list"""
-        grouping_re = r"\[\[|\[|\]\]|\]|}|{|:"
+        grouping_re = r"\[|\]|}|{|:"
         paren_re = r"\)|\(|~"
         word_re = r"\?+|\&\&|\|\||,|[\"_\-a-zA-Z0-9/.^#\*@]+"
         re_string = fr"({grouping_re}|{paren_re}|{word_re})"
@@ -174,8 +174,11 @@ class QueryHandler:
             next_token = self._get_next_token()
             if next_token and next_token.kind == Token.Wildcard:
                 expr = ExpressionWildcardNew(next_token)
-            elif next_token:
+            elif next_token and next_token.kind == Token.Tag:
                 expr = Expression(next_token)
+            elif next_token:
+                # A closing symbol, a colon or an operator where a term has to stand
+                raise ValueError(f"Parse error: unexpected '{next_token.text}' where a term was expected")
             else:
                 expr = None
 
